@@ -19,6 +19,7 @@ import (
 	"fmt"
 	"reflect"
 	"sort"
+	"strings"
 	gosync "sync"
 	"time"
 )
@@ -141,6 +142,14 @@ type Result struct {
 	Panics    []string
 	Diverged  bool // a prefix choice was out of range
 	StateKeys []string
+	// WatchedWrites: writes to objects registered with Watch; Accesses: probes seen
+	WatchedWrites []WatchedWrite
+	Accesses      int
+}
+
+// WatchedWrite is one write to a watched object.
+type WatchedWrite struct {
+	Object, Field, Where string
 }
 
 type access struct {
@@ -162,6 +171,9 @@ type sched struct {
 	lastR    map[string]map[int]access
 	res      *Result
 	objNames map[interface{}]string
+	watched  map[interface{}]string          // object -> label: writes to it are reported
+	allowed  map[interface{}]map[string]bool // object -> fields that may be written
+	accesses int
 }
 
 var (
@@ -176,7 +188,7 @@ func active() *sched { return cur }
 func Run(prefix []int, bodies []func()) *Result {
 	globalMu.Lock()
 	defer globalMu.Unlock()
-	s := &sched{yielded: make(chan *thread), prefix: prefix, now: baseNow, lastW: map[string]access{}, lastR: map[string]map[int]access{}, res: &Result{}, objNames: map[interface{}]string{}}
+	s := &sched{yielded: make(chan *thread), prefix: prefix, now: baseNow, lastW: map[string]access{}, lastR: map[string]map[int]access{}, res: &Result{}, objNames: map[interface{}]string{}, watched: map[interface{}]string{}, allowed: map[interface{}]map[string]bool{}}
 	root := vclock{0: 1}
 	for i, b := range bodies {
 		t := &thread{id: i + 1, fn: b, resume: make(chan struct{}), pending: opStart, vc: root.copy()}
@@ -375,11 +387,43 @@ type rlocker struct{ m *RWMutex }
 func (r rlocker) Lock()   { r.m.RLock() }
 func (r rlocker) Unlock() { r.m.RUnlock() }
 
+// Watch makes every later write access to obj (a pointer the instrumented code may reach) a
+// reported event: the frame condition "this call does not modify its argument", checked on
+// the writes themselves, whether or not they are undone before the call returns. allow names
+// fields that may be written. To be called from inside a thread body.
+func Watch(obj interface{}, label string, allow ...string) {
+	s := active()
+	if s == nil || obj == nil {
+		return
+	}
+	s.watched[obj] = label
+	if len(allow) > 0 {
+		m := map[string]bool{}
+		for _, a := range allow {
+			m[a] = true
+		}
+		s.allowed[obj] = m
+	}
+}
+
 // Access reports a read or write of obj.field by the running thread.
 func Access(obj interface{}, field string, write bool, where string) {
 	s := active()
 	if s == nil || s.current == nil {
 		return
+	}
+	s.accesses++
+	s.res.Accesses = s.accesses
+	if write {
+		if label, ok := s.watched[obj]; ok {
+			root := field
+			if i := strings.IndexAny(root, ".["); i > 0 {
+				root = root[:i]
+			}
+			if !s.allowed[obj][root] {
+				s.res.WatchedWrites = append(s.res.WatchedWrites, WatchedWrite{Object: label, Field: field, Where: where})
+			}
+		}
 	}
 	t := s.current
 	name, ok := s.objNames[obj]
